@@ -120,6 +120,8 @@ def items(draw, cfg, fields):
             value = [value, "-z"]
     if neq and kind not in ("exists",):
         chain = chain + ["neq"]
+    if chain and kind in ("str", "strlist", "re", "windash") and "neq" not in chain and draw(st.integers(0, 9)) == 0:
+        field = ""  # keyword (unbound) values with modifiers: the key consists of modifiers only
     return field + "".join("|" + m for m in chain), value
 
 
